@@ -1,19 +1,227 @@
 package main
 
 import (
+	"encoding/json"
+	"flag"
 	"fmt"
-	"golang.org/x/tools/go/packages"
-	"golang.org/x/tools/go/ssa"
-	"golang.org/x/tools/go/ssa/ssautil"
+	"os"
+	"path/filepath"
+	"regexp"
+	"sort"
+	"strconv"
+	"strings"
+	"time"
 )
 
-func main() {
-	cfg := &packages.Config{Mode: packages.LoadSyntax, Dir: "/repo", BuildFlags: []string{"-tags=verif"}}
-	pkgs, err := packages.Load(cfg, "./packets")
-	if err != nil {
-		panic(err)
+type FuncSel struct {
+	Key    string   `json:"key"`
+	Select []string `json:"select,omitempty"` // globs over "kind:label"; default all
+	Skip   []string `json:"skip,omitempty"`
+	Why    string   `json:"why,omitempty"`
+}
+
+type PropConfig struct {
+	ID          string    `json:"id"`
+	Title       string    `json:"title"`
+	Packages    []string  `json:"packages"`
+	Functions   []FuncSel `json:"functions"`
+	Lemmas      []string  `json:"lemmas,omitempty"`
+	NotDecided  []string  `json:"not_decided,omitempty"`
+	Assumptions []string  `json:"assumptions,omitempty"`
+	Bounded     []string  `json:"bounded,omitempty"`
+	Contracts   []string  `json:"contracts,omitempty"` // extra trusted contract files
+}
+
+func globMatch(pat, s string) bool {
+	re := "^" + strings.ReplaceAll(regexp.QuoteMeta(pat), `\*`, ".*") + "$"
+	ok, _ := regexp.MatchString(re, s)
+	return ok
+}
+
+func selected(fs FuncSel, o *Obl) bool {
+	tag := o.Kind + ":" + o.Label
+	for _, p := range fs.Skip {
+		if globMatch(p, tag) {
+			return false
+		}
 	}
-	prog, sp := ssautil.Packages(pkgs, ssa.GlobalDebug|ssa.BareInits)
-	prog.Build()
-	fmt.Println(len(sp), sp[0].Pkg.Path())
+	if len(fs.Select) == 0 {
+		return true
+	}
+	for _, p := range fs.Select {
+		if globMatch(p, tag) {
+			return true
+		}
+	}
+	return false
+}
+
+func main() {
+	if len(os.Args) < 2 {
+		fmt.Fprintln(os.Stderr, "usage: vcheck check <prop.json> | dump <pkgpattern> <key>")
+		os.Exit(2)
+	}
+	switch os.Args[1] {
+	case "check":
+		os.Exit(cmdCheck(os.Args[2:]))
+	case "dump":
+		os.Exit(cmdDump(os.Args[2:]))
+	default:
+		fmt.Fprintln(os.Stderr, "unknown command")
+		os.Exit(2)
+	}
+}
+
+func verifRoot() string {
+	if r := os.Getenv("VERIF_ROOT"); r != "" {
+		return r
+	}
+	return "/verif"
+}
+
+func repoRoot() string {
+	if r := os.Getenv("VERIF_REPO"); r != "" {
+		return r
+	}
+	return "/repo"
+}
+
+func trustedFiles(extra []string) []string {
+	fs, _ := filepath.Glob(filepath.Join(verifRoot(), "spec", "*.contracts"))
+	sort.Strings(fs)
+	return append(fs, extra...)
+}
+
+func cmdDump(args []string) int {
+	fl := flag.NewFlagSet("dump", flag.ExitOnError)
+	smt := fl.Bool("smt", false, "print full SMT of each obligation")
+	only := fl.String("only", "", "substring filter on obligation names")
+	solve := fl.Bool("solve", true, "discharge")
+	fl.Parse(args)
+	rest := fl.Args()
+	if len(rest) < 2 {
+		fmt.Fprintln(os.Stderr, "dump <pkgpattern,...> <key>...")
+		return 2
+	}
+	E, err := LoadEngine(repoRoot(), strings.Split(rest[0], ","), trustedFiles(nil))
+	if err != nil {
+		fmt.Fprintln(os.Stderr, err)
+		return 2
+	}
+	rc := 0
+	for _, key := range rest[1:] {
+		fn := E.funcs[key]
+		if fn == nil {
+			fmt.Fprintf(os.Stderr, "no function %s\n", key)
+			var ks []string
+			for k := range E.funcs {
+				if strings.Contains(strings.ToLower(k), strings.ToLower(key[strings.LastIndex(key, ".")+1:])) {
+					ks = append(ks, k)
+				}
+			}
+			sort.Strings(ks)
+			fmt.Fprintln(os.Stderr, "candidates:", ks)
+			return 2
+		}
+		g := NewGen(E, fn, key, E.contracts.Funcs[key])
+		if err := g.Run(); err != nil {
+			fmt.Fprintln(os.Stderr, "error:", err)
+			return 2
+		}
+		for _, f := range E.fatals {
+			fmt.Fprintln(os.Stderr, "contract error:", f)
+		}
+		var obls []*Obl
+		for _, o := range g.obls {
+			if *only == "" || strings.Contains(o.Name, *only) {
+				obls = append(obls, o)
+			}
+		}
+		if *solve {
+			dir, _ := os.MkdirTemp("", "vcheck")
+			stats := &SolveStats{ByBackend: map[string]int{}}
+			Discharge(obls, dir, 3000, 10000, 16, stats)
+			os.RemoveAll(dir)
+		}
+		for _, o := range obls {
+			fmt.Printf("%-10s %6dms %-14s %s   [%s]\n", o.Status, o.Ms, o.Backend, o.Name, o.Pos)
+			if o.Status != "discharged" {
+				rc = 1
+				if o.Raw != "" {
+					fmt.Println("    ", firstLines(o.Raw, 2))
+				}
+				if o.Model != "" {
+					fmt.Println(modelSummary(o.Model, 40))
+				}
+			}
+			if *smt {
+				fmt.Println(o.query(false))
+			}
+		}
+		for _, n := range g.notes {
+			fmt.Println("note:", n)
+		}
+	}
+	return rc
+}
+
+var defineRe = regexp.MustCompile(`(?s)\(define-fun ([^ ]+) \(\) ([^\n]+?)\n\s+(.+?)\)\n`)
+
+// modelSummary extracts the interesting constants (parameters, havocked values) from a z3 model.
+func modelSummary(model string, max int) string {
+	var lines []string
+	ls := strings.Split(model, "\n")
+	for i := 0; i < len(ls); i++ {
+		l := strings.TrimSpace(ls[i])
+		if strings.HasPrefix(l, "(define-fun p.") || strings.HasPrefix(l, "(define-fun loop.") || strings.HasPrefix(l, "(define-fun ret.") {
+			val := ""
+			if i+1 < len(ls) {
+				val = strings.TrimSpace(ls[i+1])
+			}
+			lines = append(lines, "      "+l+" "+val)
+			if len(lines) >= max {
+				break
+			}
+		}
+	}
+	return strings.Join(lines, "\n")
+}
+
+type EvidenceOut struct {
+	PropertyID  string                 `json:"property_id"`
+	Tier        string                 `json:"tier"`
+	Seed        int                    `json:"seed"`
+	Level       string                 `json:"level"`
+	Coverage    map[string]interface{} `json:"coverage"`
+	Assumptions []string               `json:"assumptions"`
+	WallS       float64                `json:"wall_s"`
+	Violations  int                    `json:"violations"`
+}
+
+func cmdCheck(args []string) int {
+	fl := flag.NewFlagSet("check", flag.ExitOnError)
+	tier := fl.String("tier", "quick", "quick|thorough")
+	fl.Parse(args)
+	if t := os.Getenv("VERIF_TIER"); t == "quick" || t == "thorough" {
+		*tier = t
+	}
+	if fl.NArg() < 1 {
+		fmt.Fprintln(os.Stderr, "check <prop.json>")
+		return 2
+	}
+	t0 := time.Now()
+	seed, _ := strconv.Atoi(os.Getenv("VERIF_SEED"))
+	var cfg PropConfig
+	b, err := os.ReadFile(fl.Arg(0))
+	if err != nil {
+		fmt.Fprintln(os.Stderr, err)
+		return 2
+	}
+	if err := json.Unmarshal(b, &cfg); err != nil {
+		fmt.Fprintln(os.Stderr, "bad property config:", err)
+		return 2
+	}
+	res := runProperty(&cfg, *tier, seed)
+	res.write(&cfg, *tier, seed, time.Since(t0).Seconds())
+	return res.exit
 }
